@@ -35,16 +35,28 @@ def edit_dir(rng, zdir: Path):
         spans = H.item_spans(lines)
         if not spans:
             continue
-        for _ in range(rng.randint(0, 2)):
-            s, e = rng.choice(spans)
-            n += 1
-            lines[s] = lines[s] + f" edited{n}"
-            log.append(f"edit {rel}:{s + 1}")
-        if rng.random() < 0.6:
-            s, e = rng.choice(spans)
-            n += 1
-            lines.insert(e, rng.choice(["- ", "o ", "x P2 "]) + f"fresh note {n}")
-            log.append(f"new note {rel}:{e + 1}")
+        # per page: changes that need a write-back (stamps, new ZIDs), changes that need none (title, deleted item), both, or nothing
+        mode = rng.choice(["writeback", "writeback", "plain", "both", "none"])
+        if mode in ("writeback", "both"):
+            for _ in range(rng.randint(0, 2)):
+                s, e = rng.choice(spans)
+                n += 1
+                lines[s] = lines[s] + f" edited{n}"
+                log.append(f"edit {rel}:{s + 1}")
+            if rng.random() < 0.6:
+                s, e = rng.choice(spans)
+                n += 1
+                lines.insert(e, rng.choice(["- ", "o ", "x P2 "]) + f"fresh note {n}")
+                log.append(f"new note {rel}:{e + 1}")
+        if mode in ("plain", "both"):
+            if rng.random() < 0.6 or len(spans) < 2:
+                lines[0] = lines[0] + " retitled"
+                log.append(f"title {rel}")
+            else:
+                spans2 = H.item_spans(lines)
+                s, e = rng.choice(spans2)
+                del lines[s:e]
+                log.append(f"delete item {rel}:{s + 1}")
         (zdir / rel).write_text("\n".join(lines))
     if rng.random() < 0.5:
         (zdir / "added.zo").write_text("# Added page\n\n- first note there\no P1 a todo there\n")
@@ -192,7 +204,7 @@ def body(ctx: C.Ctx, proof: C.ProofStatus) -> C.Result:
     import multiprocessing as mp
 
     res = C.Result()
-    ndirs = ctx.scale(6, 120)
+    ndirs = ctx.scale(6, 40)
     torn = [] if ctx.tier == "quick" else [0.0, 0.5]
     full = ctx.tier != "quick"
     nchunks = 3
@@ -239,7 +251,7 @@ def classify(f: C.Failure, entry: dict) -> bool:
 
 RULE = (
     "generated directories (2-3 pages, half of the notes without ZID, some sections); phase 1: `db create`, phase 2: after an uninterrupted create, edits on a "
-    "later day (changed bodies of indexed notes, new notes, a new page, a deleted page) then `db reindex`.  For EVERY boundary between two external effects "
+    "later day (changed bodies of indexed notes, new notes, retitled pages and deleted items = changes without write-back, a new page, a deleted page) then `db reindex`.  For EVERY boundary between two external effects "
     "of the uninterrupted run (temporary-file write, atomic rename of a page / file_hash.json / next_ids.json / whitelist, database commit incl. the commits "
     "inside remove_file_by_name, unlink): kill there (BaseException before the effect; rollback as on a real kill), run the same command again, then check: "
     "rerun exits 0; user text of every page equals the uninterrupted run's; identity ZIDs unique in files and index; index == from-scratch index of a copy "
